@@ -4,6 +4,8 @@ package filter
 //
 //vf:job C13 quick VF_C13_Row row=0..69 arity=1..5 mode=0..1
 //vf:job C13 thorough VF_C13_Row row=0..69 arity=6..8 mode=0..1
+//vf:job C13 quick VF_C13_Row row=0..69 arity=65,129 mode=0..1 wide=1
+//vf:job C13 thorough VF_C13_Row row=0..69 arity=64,66,67,127,128,130 mode=0..1 wide=1
 //vf:job C13 quick VF_C13_NoFilter row=0..69
 //vf:job C13 quick VF_C13_Unknown
 //vf:job C13 quick VF_C13_TwoSources opt_globalyield=1 opt_preempt=2
@@ -98,8 +100,28 @@ func VF_C13_Row() {
 	}
 	black, prefixes := vfSetFilter(mode)
 	args := make([][]byte, arity)
-	for i := range args {
-		args[i] = vfBytes("a", 1)
+	if vfParam("wide", 0) == 1 {
+		// wide commands (MSET of 32+ pairs, DEL/BITOP of 64+ keys): every argument is the same
+		// concrete byte except the first key, the first key at argv index 64 or above (counting the
+		// command name) and the last key, which are symbolic
+		if hi-lo < 8 {
+			return // the command has no wide form at this arity
+		}
+		for i := range args {
+			args[i] = []byte{'x'}
+		}
+		args[lo] = vfBytes("a", 1)
+		args[hi] = vfBytes("a", 1)
+		for i := lo; i <= hi; i += spec.step {
+			if i >= 63 {
+				args[i] = vfBytes("a", 1) // the first key at argv index 64 or above
+				break
+			}
+		}
+	} else {
+		for i := range args {
+			args[i] = vfBytes("a", 1)
+		}
 	}
 	// specification
 	var want [][]byte
